@@ -141,6 +141,7 @@ Expected(w) ==
     [] w \in {"alien_c_str", "alien_c_int", "alien_c_float", "alien_call", "alien_start", "alien_stop", "alien_lock", "alien_sclose", "alien_deref",
                "alien_current", "alien_currentelem", "alien_sort", "alien_push", "alien_pop", "alien_concat", "alien_join"}
          -> {"ClassError"}                                                     \* an operation of a class the type does not implement, whatever the dispatcher
+    [] w \in {"sort_mixed", "sort_perm"} -> {"ClassError"}                 \* a comparison that raises aborts the sort: the exception, and the items as they were
     [] w \in {"zt_get", "zt_getneg", "zt_set", "zt_pop", "zt_popat", "zt_pushat"} -> {"IndexOutOfBoundsError"}     \* a zeroed, never constructed Tuple is an empty Tuple
     [] OTHER -> {}
 Bad == IsEv("bad") /\ Fails(Expected(E.what))
